@@ -4,6 +4,13 @@ Only the property text and a scratch worktree path are disclosed (nothing from /
 import json, sys
 pid, wt = sys.argv[1], sys.argv[2]
 n = sys.argv[3] if len(sys.argv) > 3 else "2"
+flavour = sys.argv[4] if len(sys.argv) > 4 else ""
+CLASSES = """
+  The three changes must come from three DIFFERENT classes:
+    change 1 - an INTERACTION: it needs two or more public calls or objects to manifest (state carried from one call to a later one, objects that share or alias mutable state or arrays, results that change when something else is done in between, order of operations);
+    change 2 - a REGIME: it needs an unusual-but-valid size, magnitude, dtype, unit, sign, orientation or parameter combination (large counts, tiny or huge values, non-default numeric types, quantities with units, negative or zero where allowed, non-contiguous arrays, ...), while the common regime stays correct;
+    change 3 - an EDGE or ERROR path: boundary equality, empty or degenerate input, the last element / last block / last file, an exception raised part-way and what state is left behind, rejected input that must leave no trace.
+""" if flavour == "classes" else ""
 for l in open('/verif/properties.jsonl'):
     p = json.loads(l)
     if p['id'] == pid:
@@ -25,7 +32,7 @@ Your task: produce {n} DIFFERENT, independent source changes to the library (und
       (takes ~1 minute; all 55 tests must pass with the change applied; do not edit tests),
   (c) is REALISTIC (the kind of slip a maintainer could make in a refactor or "optimisation": an off-by-one, a wrong boundary, a stale cache, a swapped argument, a missed reset, a condition that is right for the common case only) and is SUBTLE: it must need something specific to manifest - a particular multi-step call sequence, an unusual-but-valid input or configuration, a particular partition/chunking, a failure at a particular point, or two cooperating sites that each look fine alone. Changes that ordinary use would expose at once (e.g. every call returns garbage) are NOT wanted.
   Prefer changes in different functions/mechanisms from one another.
-
+{CLASSES}
 For each change i (1..{n}) write, in {wt}/seed_out/<i>/ :
   - patch.diff : `git diff` of the change against the worktree HEAD (only files under setigen/), applying cleanly with `git apply` at the worktree root;
   - demo.py : a small self-contained program (uses only setigen + numpy etc., writes temp files only under a tempfile.TemporaryDirectory) that exits 0 when the property holds for its scenario and exits 1 (printing what differed) when it does not; it must exit 1 WITH the change and exit 0 WITHOUT it on this checkout. IMPORTANT: the unmodified library has some pre-existing bugs; choose a scenario where the unmodified library behaves correctly so that demo.py exits 0 on the unmodified checkout;
